@@ -174,7 +174,7 @@ bool cmb_condition_cancel(struct cmb_condition *cvp,
     cmb_logger_info(stdout, "Cancelling condition %s for process %s",
                     rbp->name, pp->name);
 
-    return cmb_resourceguard_cancel((struct cmb_resourceguard *)cvp, pp);
+    return cmb_resourceguard_cancel(&(cvp->guard), pp);
 }
 
 bool cmb_condition_remove(struct cmb_condition *cvp,
@@ -187,5 +187,5 @@ bool cmb_condition_remove(struct cmb_condition *cvp,
     cmb_logger_info(stdout, "Removing process %s from condition %s",
                     pp->name, rbp->name);
 
-    return cmb_resourceguard_remove((struct cmb_resourceguard *)cvp, pp);
+    return cmb_resourceguard_remove(&(cvp->guard), pp);
 }
